@@ -134,7 +134,7 @@ def run(tier, seed, model_ok, translator, search=False):
 
         # queries
         qs = [{"q": "len"}, {"q": "iter"}]
-        for nm in NAMES[:5] + NAMES[-2:] + ["absent"]:
+        for nm in NAMES[:5] + ["_x"] + NAMES[-2:] + ["absent"]:
             for q in ("all", "contains", "unique", "getattr", "getitem_str"):
                 qs.append({"q": q, "n": nm})
         ntab = sum(1 for a in abstract if a["t"])
@@ -235,8 +235,17 @@ def impl_run(TableBundle, NotUnique, blocks, as_df, qs, n):
             ans.append({"exc": "TableNameNotUniqueInBundleError"})
         except Exception as e:  # noqa: BLE001 — any other class is reported as such and judged by the oracle
             ans.append({"exc": type(e).__name__})
+    # the list all() gives for an absent name is the caller's: filling it must not show up anywhere else
+    try:
+        mine = b.all("absent")
+        mine.append("caller's own entry")
+        leaked = b.all("another absent name") or TableBundle(iter([])).all("absent")
+    except Exception:  # noqa: BLE001
+        leaked = None
     if list(b._tables_named.keys()) != keys_before or [id(x) for x in b] != order_ids:
         ans.append("STATE-CHANGED-BY-LOOKUP")
+    elif leaked:
+        ans.append("ALL-RESULT-SHARED")
     elif not _iterations_independent(b, order_ids):
         ans.append("ITERATIONS-INTERFERE")
     return ans
@@ -300,6 +309,10 @@ def oracle(abstract, impl, qs, out, case):
         return
     if impl and impl[-1] == "STATE-CHANGED-BY-LOOKUP":
         out.fail("a lookup changed the bundle", case, impl, None, key="lookup_mutates")
+        return
+    if impl and impl[-1] == "ALL-RESULT-SHARED":
+        out.fail("entries a caller put into the list all(absent name) returned show up in the result of another all() "
+                 "call", case, impl, None, key="all_result_shared")
         return
     if impl and impl[-1] == "ITERATIONS-INTERFERE":
         out.fail("an iteration over the bundle did not yield every table in input order while another iteration "
